@@ -500,3 +500,15 @@ impl FixtureDatabase {
         unused
     }
 }
+
+// Verification hooks (see analyzer.rs).
+#[cfg(pytest_language_server_verif)]
+impl FixtureDatabase {
+    /// The per-(file, fixture) usage counts that `fixtures list` prints, sorted.
+    pub fn verif_definition_usage_counts(&self) -> Vec<((PathBuf, String), usize)> {
+        let mut counts: Vec<((PathBuf, String), usize)> =
+            self.compute_definition_usage_counts().into_iter().collect();
+        counts.sort();
+        counts
+    }
+}
